@@ -324,3 +324,32 @@ Proof.
     specialize (Hf 91 (or_introl eq_refl)). unfold okc in Hf. rewrite D91 in Hf.
     assert (X : 91 < 128) by lia. specialize (Hf X). discriminate.
 Qed.
+
+(* ---------------------------------------------------------------- C16_unicode_host without (P1) and (P2) *)
+From RU Require Import Model.HostT Proofs.C09_Host Proofs.C16_UniHost.
+
+(* Host::parse (host model + IDNA model at the URL deny list) reads the text that origin.rs displays for a domain d -
+   idna::domain_to_unicode, the EMPTY deny list, non-ASCII forms included - back as d: for every ToASCII fixed point d
+   that is not empty and does not end in a number, outside Known_C12 / Known_C10_long, relative to the eight sampled
+   adapter facts only *)
+Theorem uni_host_rt_full A cfg :
+  AdapterOK A -> AdapterUSV A -> NvNoTrunc A -> NvIdem A -> AsciiNoMark A -> MapPrefix A -> NvMapFix A -> NvNoGrow A ->
+  forall d b, Forall (fun c => c < 128) d -> to_ascii A cfg d DENY_URL HAllow DIgnore = U32_c13.Ok (b, d) ->
+  Known_C12 A cfg d DENY_URL HAllow = false -> Known_C10_long d = false ->
+  d <> [] -> Model.Host.ends_in_a_number d = false ->
+  Model.Host.host_parse (idna_of A cfg) (ui_text (domain_to_unicode A cfg d)) = HostT.Ok (HDomain d)
+  /\ usv_list (ui_text (domain_to_unicode A cfg d)).
+Proof.
+  intros HOK HUSV HNT HNI HNM HMP HMF HNG d b Ha H HK Hlong Hne Hnum.
+  assert (Hb : bytes d) by (unfold bytes; eapply Forall_impl; [|exact Ha]; intros c Hc; unfold is_byte; cbv beta in Hc; lia).
+  pose proof (p1_empty_url A cfg d b d H) as HP1.
+  destruct (p2_url A cfg HOK HUSV HNT HNI HNM HMP d b d Hb H) as [Hpct Hbr].
+  assert (Et : ui_text (domain_to_unicode A cfg d) = ui_text (to_unicode A cfg d DENY_URL HAllow)).
+  { unfold domain_to_unicode. rewrite (C09_Host.utf8_encode_ascii d Ha), HP1. reflexivity. }
+  split.
+  - apply (uni_host_rt_origin A cfg HOK HUSV HNT HNI HNM HMP HMF HNG d b Ha H HK Hlong Hne Hnum).
+    + rewrite HP1. reflexivity.
+    + rewrite Et. exact Hpct.
+    + rewrite Et. exact Hbr.
+  - rewrite Et. exact (c12_unicode_usv A cfg HOK HUSV HNT HNI HNM HMP HMF HNG d DENY_URL HAllow b d Hb valid_deny_url HK H Hlong).
+Qed.
